@@ -358,6 +358,12 @@ class Session:
             return
         if any(l["impl"]["exc"] not in ("ok", "Fault") for l in self.lines):
             return          # another failure left a partial update whose extent depends on the order of independent tasks
+        srcs = {pkey(l["src"]) for l in self.lines if l["op"] == "regknob"}
+        if any(l["op"] in ("setexpr", "iop", "load", "regfunc") and
+               (pkey(l.get("path")) in srcs or any(pkey(q) in srcs for q in l.get("tars", [])) or
+                any(pkey(pe[0]) in srcs for pe in l.get("pairs", []))) for l in self.lines):
+            return          # a knob whose source is itself computed (possibly from the knob's own targets) is a feedback loop:
+                            # the state depends on how often the knob ran, with or without a fault
         self.recovery_checks += 1
         clean = []
         for l in self.lines:
@@ -932,6 +938,10 @@ def draw(rng, g, sess, kind, pick):
     if kind == "query":
         return {"op": "query", "path": rng.choice(P + [["d", ["i", "n"]]] if g.nested else P)}
     if kind == "freeze":
+        if rng.random() < 0.25:
+            # not only balanced pairs: freezing a frozen manager, unfreezing one that is not frozen — the manager is frozen
+            # exactly between a freeze_tree() and the next unfreeze_tree(), however often either is called
+            return {"op": "freeze" if sess.frozen else "unfreeze"}
         return {"op": "unfreeze" if sess.frozen else "freeze"}
     if kind == "genfun":
         blk = sess.blocked(False)
@@ -1111,6 +1121,11 @@ def c17_corpus():
     base = [{"op": "reset"}, {"op": "container", "label": "d", "value": {"d": [["x", 1], ["y", 0], ["w", 0], ["z", 0]]}},
             {"op": "setexpr", "path": Y, "expr": ["bin", "Mul", ["ref", X], ["lit", 2]]},
             {"op": "setexpr", "path": W_, "expr": ["bin", "Add", ["ref", Y], ["lit", 1]]}]
+    # unbalanced calls: unfreeze on a manager that was never frozen, freeze twice and unfreeze once
+    yield base + [{"op": "unfreeze"}, {"op": "setexpr", "path": Z, "expr": ["bin", "Add", ["ref", X], ["lit", 10]]},
+                  {"op": "freeze"}, {"op": "setexpr", "path": Z, "expr": ["bin", "Sub", ["ref", X], ["lit", 1]]},
+                  {"op": "set", "path": X, "value": 4}, {"op": "freeze"}, {"op": "unfreeze"},
+                  {"op": "setexpr", "path": Z, "expr": ["bin", "Mul", ["ref", X], ["lit", 3]]}, {"op": "set", "path": X, "value": 6}]
     # a definition removed between two frozen periods
     yield base + [{"op": "freeze"}, {"op": "set", "path": X, "value": 3}, {"op": "unfreeze"},
                   {"op": "set", "path": Y, "value": 11}, {"op": "freeze"}, {"op": "set", "path": X, "value": 5},
